@@ -2,7 +2,7 @@
    Model: Model/SemVer.v; the accepting regex [semver_src] is regenerated from
    src/version/semver/parser.rs on every run (Gen/RegexSrc.v), [semver_spec] is the SemVer BNF
    transcribed production by production (tools/spec/semver_bnf.rx) over the same atoms. *)
-From ZV Require Import Str Dec Rx RegexSrc SemVer SemVerProofs RegexEquiv.
+From ZV Require Import Str Dec Rx RegexSrc SemVer SemVerProofs RegexEquiv SemVerAccept.
 From RelationAlgebra Require regex.
 
 (* Tie 1, re-decided on every run: the source regex and the BNF denote the same language *)
@@ -13,21 +13,31 @@ Proof. exact semver_regex_lang. Qed.
 Theorem c08_matcher_decides : forall e w, rx_accepts e w = true <-> regex.lang e w.
 Proof. exact rx_accepts_lang. Qed.
 
-(* hence: the model parser accepts s exactly when s is in the BNF language and the field
-   extraction succeeds.  PARTIAL: "extraction succeeds on every BNF member whose numeric
-   identifiers are below 2^64" is not proved here; it is checked exhaustively on short strings and
-   on every generated case by the correspondence run (oracle clause rejects-grammar-member). *)
-Theorem c08_accepts_iff_partial : forall s,
-  (exists v, semver_parse s = Some v) <->
-  regex.lang semver_spec (map semver_atom_of s) /\ (exists v, semver_extract s = Some v).
-Proof.
-  intros s. unfold semver_parse. rewrite <- semver_regex_lang, <- rx_accepts_lang.
-  destruct (rx_accepts semver_src (map semver_atom_of s)); split.
-  - intros H. split; [reflexivity|exact H].
-  - intros [_ H]. exact H.
-  - intros [v H]. discriminate.
-  - intros [H _]. discriminate.
-Qed.
+(* THE ACCEPTANCE THEOREM, for every string: the parser accepts s exactly when s is in the SemVer 2.0.0 BNF language (with the
+   optional v) and its three core numbers fit u64.  [core_fits s] reads the three dot-separated numbers in front of the first '-' / '+'
+   and asks that each parses as u64 - the only way a BNF member is refused (recorded as known finding numeric-field>=2^64: SemVer
+   itself puts no bound on the numbers).  The hard direction - every BNF member is split into its fields successfully - is proved by
+   inverting membership in a regex that ka proves to contain the BNF language (GrammarKa.sv_in_ka, re-decided on every run). *)
+Theorem c08_accepts_iff : forall s,
+  (exists v, semver_parse s = Some v) <-> regex.lang semver_spec (map semver_atom_of s) /\ core_fits s.
+Proof. exact semver_accepts_iff. Qed.
+
+(* the shape of every member of the BNF language, as used by the theorem: [v] X.Y.Z [-pre] [+build] with canonical numbers, non-empty
+   identifiers over [0-9A-Za-z-], numeric pre-release identifiers without leading zeros *)
+Theorem c08_member_shape : forall s, regex.lang semver_spec (map semver_atom_of s) ->
+  exists V a b c pre build, s = V ++ (a ++ [c_dot] ++ b ++ [c_dot] ++ c) ++ opt_text c_dash pre ++ opt_text c_plus build /\
+    (V = [] \/ V = [118%N]) /\ canonical_dec a = true /\ canonical_dec b = true /\ canonical_dec c = true /\
+    (match pre with Some ps => ps <> [] /\ Forall pre_part_ok ps | None => True end) /\
+    (match build with Some ps => ps <> [] /\ Forall build_part_ok ps | None => True end).
+Proof. exact member_shape. Qed.
+
+(* non-vacuity: a member that fits is accepted; a member whose major number is 2^64 is the refused case *)
+Example c08_accepts_ex :
+  rx_accepts semver_spec (map semver_atom_of [118;49;46;50;46;51;45;114;99;46;49;43;98;46;48;55]%N) = true /\
+  semver_parse [118;49;46;50;46;51;45;114;99;46;49;43;98;46;48;55]%N <> None /\
+  rx_accepts semver_spec (map semver_atom_of (print_dec 18446744073709551616 ++ [46;48;46;48])%N) = true /\
+  semver_parse (print_dec 18446744073709551616 ++ [46;48;46;48])%N = None.
+Proof. vm_compute. repeat split; discriminate. Qed.
 
 (* lossless: printing the parsed version gives back the input without the v, character for character *)
 Theorem c08_lossless : forall s v, semver_parse s = Some v -> semver_print v = strip_v s.
@@ -46,6 +56,7 @@ Proof.
 Qed.
 
 Check c08_regex_is_bnf : forall w, regex.lang semver_src w <-> regex.lang semver_spec w.
+Check c08_accepts_iff : forall s, (exists v, semver_parse s = Some v) <-> regex.lang semver_spec (map semver_atom_of s) /\ core_fits s.
 Check c08_lossless : forall s v, semver_parse s = Some v -> semver_print v = strip_v s.
 
 (* non-vacuity: "v1.2.3-rc.1+b.07" parses, prints without the v *)
@@ -56,6 +67,7 @@ Proof. vm_compute. reflexivity. Qed.
 
 Print Assumptions c08_regex_is_bnf.
 Print Assumptions c08_matcher_decides.
-Print Assumptions c08_accepts_iff_partial.
+Print Assumptions c08_accepts_iff.
+Print Assumptions c08_member_shape.
 Print Assumptions c08_lossless.
 Print Assumptions c08_check_agrees.
